@@ -886,3 +886,85 @@ def opt_len_packets(thorough=False):
                     b += b"\0" + struct.pack(">HHIH", 41, 1232, 0, rl) + opts + b"\0" * fill
                     out.append(b)
     return out
+
+
+def misaligned_packets(rng, n):
+    """Responses in which label contents hold pointer-like byte pairs (0xc0|hi, lo) and length-like bytes, and a later name ends in a
+    pointer to an arbitrary - mostly misaligned - earlier offset: what the bytes mean depends on where reading starts, so every rule
+    about where a followed name may run (strictly below the pointer / below the segment that held it) is exercised."""
+    out = []
+    for _ in range(n):
+        qn = [bytes(rng.choice(b"nq") for _ in range(rng.choice([1, 3, 20, 31])))] + ([b"q"] if rng.random() < 0.7 else [])
+        b = bytearray(struct.pack(">HHHHHH", 0x7777, 0x8180, 1, 2, 0, 0) + wire_name(qn) + struct.pack(">HH", 1, 1))
+        # answer 1: TXT-like opaque data with short labels / pointer-like pairs inside
+        filler = bytes(rng.choice([3, 1, 2, 0x78, 0x79, 0x78, 0x79, 0xC0, 12, 0x21, 0x34, 33, 40]) for _ in range(rng.choice([3, 3, 4, 6, 9, 40])))
+        b += b"\xc0\x0c" + struct.pack(">HHIH", 16, 1, 5, len(filler)) + filler
+        S = len(b)
+        L = rng.choice([32, 33, 34, 40, 47, 48, 62, 63, rng.randint(32, 63)])
+        content = bytearray()
+        okc = lambda c: c >= 32 and c not in (0x2E, 0x5C, 127)
+        while len(content) < L:
+            k = rng.random()
+            if k < 0.45:
+                lo = rng.choice([0x21, 0x22, 0x34, S - 3, S - 2, S - 1, rng.randint(32, max(32, min(S, 255)))]) & 0xFF
+                content += bytes([0xC0, lo if okc(lo) else 0x21])
+            elif k < 0.6:
+                content += bytes([rng.choice([32, 33, 34, 40, L & 63 if okc(L & 63) else 33])])
+            else:
+                content += bytes([rng.choice(b"abcxyz")])
+        content = bytes(content[:L])
+        T = rng.choice([rng.randint(12, S - 1), S - 3, S - 2, S - 1, S - len(filler), 12, 13])
+        owner = bytes([L]) + content + bytes([0xC0 | (T >> 8), T & 0xFF])
+        b += owner + struct.pack(">HHIH", 1, 1, 5, 4) + b"\1\2\3\4"
+        out.append(bytes(b))
+    return out
+
+
+def mixed_chain_packet(label_hops, run, records=3, label_first=True):
+    """Pointer chains of mixed shape. Opaque data of one record hold a run of `run` back-to-back pointers (each to the one before, the
+    first to the question name) and `label_hops` names of the form <1-byte label> + pointer (each to the name before, the first to
+    the head of the run); `records` A records are then owned by a pointer to the last of them. Reading an owner takes
+    1 + label_hops + run hops, alternating pointer-to-label and pointer-to-pointer steps; with label_first=False the names come first
+    (the run points at them)."""
+    q = wire_name([b"a"]) + struct.pack(">HH", 1, 1)
+    s0 = 12 + len(q) + 12                    # start of the opaque data of record 1
+    data = bytearray()
+    if label_first:
+        prev = 12
+        for i in range(run):
+            at = s0 + len(data)
+            data += struct.pack(">H", 0xC000 | prev)
+            prev = at
+        for i in range(label_hops):
+            at = s0 + len(data)
+            data += bytes([1, 0x78 + (i % 3)]) + struct.pack(">H", 0xC000 | prev)
+            prev = at
+    else:
+        prev = 12
+        for i in range(label_hops):
+            at = s0 + len(data)
+            data += bytes([1, 0x78 + (i % 3)]) + struct.pack(">H", 0xC000 | prev)
+            prev = at
+        for i in range(run):
+            at = s0 + len(data)
+            data += struct.pack(">H", 0xC000 | prev)
+            prev = at
+    if prev > 0x3FFF:
+        return None
+    b = struct.pack(">HHHHHH", 0x4d4d, 0x8180, 1, 1 + records, 0, 0) + q
+    b += b"\xc0\x0c" + struct.pack(">HHIH", 10, 1, 1, len(data)) + bytes(data)
+    head = struct.pack(">H", 0xC000 | prev)
+    for k in range(records):
+        b += head + struct.pack(">HHIH", 1, 1, 1, 4) + bytes([10, 9, 8, k & 255])
+    return b
+
+
+def mixed_chain_family(thorough=False):
+    out = []
+    for lh in (0, 1, 2, 3, 4):
+        for run in ((12, 13, 14, 15, 16, 17, 40) if not thorough else tuple(range(8, 20)) + (40, 400, 4000)):
+            for lf in (True, False):
+                b = mixed_chain_packet(lh, run, records=3 if run < 100 else 300, label_first=lf)
+                if b is not None:
+                    out.append(b)
+    return out
